@@ -171,16 +171,32 @@ class ReconRun:
     def ev_tcp(self, res: str):
         self.inject(self.w.tcp_ok if res == "ok" else self.w.tcp_err)
 
+    def _session_live(self) -> bool:
+        c = self.client._connection
+        return bool(c is not None and c.is_connected)
+
     def ev_chunk(self, ms: list):
         w = self.w
+        # a disconnect request of the device on a live session initiates a graceful end
+        row = ["graceful"] if any(m.get("k") == "discreq" for m in ms) else None
 
         def fn():
             tr = w.tr
-            if tr is None or not tr.can_receive():
+            if tr is None or not tr.can_receive() or (row is not None and not self._session_live()):
                 return False
             return w.send_msgs([device_message(m) for m in ms])
 
-        self.inject(fn)
+        self.inject(fn, row)
+
+    def ev_user_disconnect(self):
+        """The application ends the live session itself (client.disconnect()) while the manager is running."""
+
+        def fn():
+            if not self._session_live() or getattr(self, "_user_disc", None) is not None and not self._user_disc.done():
+                return False
+            self._user_disc = asyncio.Task(self.client.disconnect(), loop=self.loop, eager_start=True)
+
+        self.inject(fn, ["graceful"])
 
     def ev_junk(self):
         self.inject(lambda: self.w.chunk(b"\x01\x00\x00"))  # a device that wants encryption
@@ -276,7 +292,10 @@ def random_story(rng: random.Random, n: int) -> list:
                     sch += gaps(rng) + [rng.choice([("ev", "mdns", rng.choice(("ptr", "a", "other", "other_ptr"))), ("ev", "stop"), ("tick",)])]
             sch += gaps(rng)
             if out == "ok" and rng.random() < 0.8:
-                sch += [("idle",), rng.choice([("ev", "chunk", [{"k": "discreq"}]), ("ev", "eof")])] + gaps(rng)
+                if rng.random() < 0.3:
+                    sch += [("idle",), ("ev", "user_disconnect")] + gaps(rng) + [rng.choice([("ev", "chunk", [{"k": "discresp"}]), ("ev", "eof"), ("tick",), ("ev", "chunk", [{"k": "garbage"}])])] + gaps(rng)
+                else:
+                    sch += [("idle",), rng.choice([("ev", "chunk", [{"k": "discreq"}]), ("ev", "eof")])] + gaps(rng)
         elif r < 0.6:
             sch += [("ev", "mdns", rng.choice(("ptr", "a", "other", "other_ptr")))] + gaps(rng)
         elif r < 0.8:
@@ -324,6 +343,13 @@ def systematic() -> list:
                     for g in ([], [("iter", 1)], [("idle",)]):
                         sch = list(base[:p]) + [d] + g + list(base[p:]) + [("tick",), ("idle",), ("ev", "stop"), ("idle",), ("tick",), ("ev", "start"), ("idle",), ("ev", "resolve", "err"), ("idle",)]
                         out.append(sch)
+    # the application disconnects the live session itself: whatever closes it afterwards (the device's answer, a
+    # plain close, a protocol error, the time-out) it was an expected end - cool-down, then the next attempt
+    for closer in ([("ev", "chunk", [{"k": "discresp"}])], [("ev", "eof")], [("ev", "chunk", [{"k": "garbage"}])], [("tick",)], [("ev", "chunk", [{"k": "discreq"}])]):
+        for g in ([], [("iter", 1)], [("idle",)]):
+            sch = [("ev", "start"), ("idle",)] + attempt_steps("ok") + [("idle",), ("ev", "user_disconnect")] + g + closer + g
+            sch += [("idle",), ("tick",), ("tick",)] + attempt_steps("ok") + [("idle",), ("ev", "stop"), ("idle",)]
+            out.append(sch)
     # a matching record in the same iteration as the retry timer (both orders)
     for first in ("mdns", "timer"):
         sch = [("ev", "start"), ("idle",)] + attempt_steps("tcp_err") + [("idle",), ("adv", 1999)]
@@ -364,8 +390,12 @@ def tokens_to_schedule(toks: list, variant: int) -> list:
                 sch += ([("ev", "chunk", [HELLO_OK, CONNECT_BAD])] if auth else [("ev", "eof")]) + g
         elif k == "succeed":
             sch += [("ev", "chunk", HELLO)] + g
+        elif k == "graceful":
+            sch += [("ev", "user_disconnect")] + g
         elif k == "end":
-            sch += ([("ev", "chunk", [{"k": "discreq"}])] if t[1] else [("ev", "eof")]) + g
+            # (an expected end follows a "graceful" token; what closes the session then is the device's answer, a plain
+            # close of the socket, or the time-out of the disconnect)
+            sch += ([[("ev", "chunk", [{"k": "discresp"}])], [("ev", "eof")], [("tick",)]][(n + variant) % 3] if t[1] else [("ev", "eof")]) + g
         elif k == "i":
             sch += [("iter", 1)]
     sch += [("idle",), ("tick",), ("idle",), ("ev", "stop"), ("idle",), ("tick",), ("ev", "mdns", "ptr"), ("idle",)]
